@@ -85,7 +85,27 @@ var soupWrap = []string{"", "", "container zzw { %s }", "leaf zzw { %s }", "list
 	"deviation \"/zz:y\" { deviate replace { %s } }", "extension zzw { %s }", "feature zzw { %s }", "import zzw { %s }",
 	"revision 2002-02-02 { %s }", "anydata zzw { %s }", "container zzw { uses zzw2 { %s } }"}
 
+// soupLate holds statements the parser accepts wherever a data node may stand
+// and that fail during Process: several of them on one line give several
+// errors with one file and line, i.e. ordered by column alone.
+var soupLate = []string{
+	`uses zznogrouping;`, `leaf zzl2 { type zznotype; }`, `leaf zzl3 { type zzp:t; }`, `container zzc2 { uses zzu2; }`,
+	`leaf zzl4 { type identityref { base zznobase; } }`, `list zzls { key "k"; leaf k { type zznotype2; } }`,
+	`leaf-list zzll { type zznotype3; }`, `leaf zzok { type string; }`, `container zzc3 { }`,
+}
+
 func genSoup(t *tape.Tape) string {
+	if t.Chance(1, 3) {
+		var parts []string
+		for k := t.Range(2, 4); k > 0; k-- {
+			parts = append(parts, soupLate[t.Intn(len(soupLate))])
+		}
+		body := strings.Join(parts, " ")
+		if t.Chance(1, 3) {
+			body = "container zzw { " + body + " }"
+		}
+		return "  " + body + "\n"
+	}
 	var parts []string
 	for k := t.Range(2, 4); k > 0; k-- {
 		parts = append(parts, soupPool[t.Intn(len(soupPool))])
